@@ -35,6 +35,9 @@ P = {
  "C04": ('Coq proof (tiling invariants; everything else lies below the interval at the top; induction over the schedule for the quiescent prefix) + lock-step correspondence with call/return times',
          "Theorem c04_linearizable_cursor: for every source kind (slice, vector, array, range, also under cloned()/copied(); the wrapper over an arbitrary iterator with any size hint), every length, every thread count, every per-thread program and every schedule whose fetch_adds do not wrap, check_prop 4 (at every point of the history where no call is pending the delivered positions are a gap-free prefix; each thread receives increasing positions; a pull that starts after another returned receives larger positions) on the model's trace, skips included.",
          'The sequential corollary (single-threaded history = sequential iterator) is the one-thread instance together with C02/C03.'),
+ "C07": ("Coq proof (ticket-protocol invariant Prot => mutual exclusion; vector-clock invariant over the orderings extracted from the source => happens-before) + translator for the memory orderings + lock-step correspondence with orderings compared",
+         "Theorems c07_mutual_exclusion and c07_happens_before: for the wrapper over an arbitrary iterator, every size hint, every thread count, every per-thread program (single, chunk, buffered pulls, loops, skip_to_end, length queries) and every schedule whose fetch_adds do not wrap: in every reachable state at most one thread is between its entry to and exit from the wrapped iterator, and chk_C07_hb (vector clocks computed with the C11 release/acquire rules from the orderings that tools/extract_orderings.py reads out of src/iter/atomic_counter.rs and src/iter/implementors/iter.rs on every run; every use of the wrapped iterator happens-after the previous use) is true on the model's label stream. The proof obligation about the source is `sufficient = true` (acquire reads / release read-modify-writes of the yielded counter); the same extracted checker (mutual exclusion scan + vector clocks) judges the crate's label streams, whose orderings are reported by the shim.",
+         "Partial on the last sentence of the property: races on other non-atomic state (slices, vector elements, buffers) are excluded through C01/C08 (disjoint positions) and not by a separate memory-model theorem; the happens-before relation is computed over sequentially consistent interleavings of the atomics (values read are the latest written), which is exact for this protocol because every atomic involved in the hand-off is accessed by read-modify-write or acquire/release pairs on one location. Runs that wrap the reserved counter are known finding F14."),
  "C08": ("Coq proof (ledger tiling invariant: taken and destroyed intervals tile [0, min(counter,len))) + drop-ledger correspondence",
          "Theorems c08_known_kinds_run / c08_known_kinds_end_of_life: for consuming vectors and arrays, at every point of every schedule the moved-out and the machinery-destroyed intervals are pairwise disjoint and inside the source, and after drop or into_seq_iter (any number taken from the remainder) at any quiescent point they tile the source exactly: every element moved out or destroyed exactly once; for borrowed sources nothing is ever destroyed.",
          "Known-size consuming kinds proved; owning wrapped iterator by correspondence + extracted checker (partial)."),
@@ -50,7 +53,6 @@ P = {
 }
 
 NOT_YET = {
- "C07": "mutual exclusion / happens-before theorems for the wrapped iterator are in progress; not claimed in this snapshot",
  "C09": "progress theorems in progress; not claimed in this snapshot",
  "C13": "adaptor transparency theorem in progress; not claimed in this snapshot",
  "C14": "bounds translator and compile probes in progress; not claimed in this snapshot",
